@@ -75,12 +75,12 @@ type AsyncReq struct {
 
 // Oracles switches clauses on and off per profile.
 type Oracles struct {
-	Retention      bool `json:"retention,omitempty"`       // fractions may be retired: weak presence oracle + whole-fraction/oldest-first checks
-	CountsStrict   bool `json:"counts_strict,omitempty"`   // totals/hist/aggs/DocsTotal count each document once (all copies in one fraction)
-	TolerateDeath  bool `json:"tolerate_death,omitempty"`  // I/O errors are injected: the process may die, data must survive
-	FormsEqual     bool `json:"forms_equal,omitempty"`     // C03: compare batteries of different fraction forms with each other
-	NoErrors       bool `json:"no_errors,omitempty"`       // C07: any API error is a violation
-	IDsOnly        bool `json:"ids_only,omitempty"`        // copies of a document may sit in several fractions: only listing and fetch are compared
+	Retention     bool `json:"retention,omitempty"`      // fractions may be retired: weak presence oracle + whole-fraction/oldest-first checks
+	CountsStrict  bool `json:"counts_strict,omitempty"`  // totals/hist/aggs/DocsTotal count each document once (all copies in one fraction)
+	TolerateDeath bool `json:"tolerate_death,omitempty"` // I/O errors are injected: the process may die, data must survive
+	FormsEqual    bool `json:"forms_equal,omitempty"`    // C03: compare batteries of different fraction forms with each other
+	NoErrors      bool `json:"no_errors,omitempty"`      // C07: any API error is a violation
+	IDsOnly       bool `json:"ids_only,omitempty"`       // copies of a document may sit in several fractions: only listing and fetch are compared
 }
 
 // Case is a complete, explicit, replayable simulation input.
